@@ -4,7 +4,6 @@
 
 use bitcoin::block::{Block, Header, Version};
 use bitcoin::blockdata::constants::genesis_block;
-use bitcoin::hashes::Hash;
 use bitcoin::merkle_tree::calculate_root;
 use bitcoin::pow::Work;
 use bitcoin::{BlockHash, Network, Transaction, Txid};
@@ -168,6 +167,11 @@ pub fn lock<T>(m: &Mutex<T>) -> std::sync::MutexGuard<'_, T> {
 pub struct SimChain {
     pub state: Arc<Mutex<ChainState>>,
     pub log: EventLog,
+    /// if set, the tower's sqlite file is read (second, read-only connection) right before each
+    /// block is handed out, i.e. when the previous block has been fully processed
+    pub snap_path: Option<std::path::PathBuf>,
+    /// snapshots are only taken while armed (i.e. not during the bootstrap's block fetching)
+    pub armed: std::sync::atomic::AtomicBool,
 }
 
 impl SimChain {
@@ -215,6 +219,11 @@ impl BlockSource for SimChain {
             }
             match st.blocks.get(header_hash) {
                 Some(sb) => {
+                    if let (Some(p), true) = (&self.snap_path, self.armed.load(std::sync::atomic::Ordering::SeqCst)) {
+                        if let Ok(snap) = crate::snap::Snap::read(p) {
+                            self.log.push(Ev::Snap(Box::new(snap)));
+                        }
+                    }
                     self.log.push(Ev::GetBlock { hash: *header_hash, height: sb.height });
                     Ok(BlockData::FullBlock(sb.block.clone()))
                 }
